@@ -129,6 +129,59 @@ def _rigid_modes(pd):
     return out
 
 
+def check_redefine(case, ctx):
+    """parametric use of ONE Panel object: calc_k0, edit the definition (offset, a ply angle / thickness edited in place, the
+    force_orthotropic_laminate switch), calc_k0 again -> must be the matrix of the NEW definition (reference and fresh object)."""
+    import copy
+    name = 'k0.redefined[%s]' % case['model']
+    p = pkg.make_panel(case)
+    if case['ortho_first']:
+        p.force_orthotropic_laminate = True
+    with package(name + '.first'):
+        p.calc_k0(silent=True)
+    new = copy.deepcopy(case)
+    L = new['lam']
+    ed = case['edit']
+    ctx.nontrivial = True
+    ctx.label('model:' + case['model'], 'edit:' + ed['what'])
+    if ed['what'] == 'offset':
+        L['offset'] = ed['value'] * pkg.lam_h(case)
+        p.offset = L['offset']
+    elif ed['what'] == 'angle-in-place':
+        k = ed['ply'] % len(L['stack'])
+        L['stack'][k] = L['stack'][k] + ed['value'] * 30.
+        p.stack[k] = L['stack'][k]
+    elif ed['what'] == 'thickness-in-place':
+        k = ed['ply'] % len(L['plyts'])
+        L['plyts'][k] = L['plyts'][k] * (1.5 + abs(ed['value']))
+        if p.plyts:
+            p.plyts[k] = L['plyts'][k]
+        else:
+            p.plyts = list(L['plyts'])
+        L['uniform'] = False
+    elif ed['what'] == 'ortho-toggle':
+        p.force_orthotropic_laminate = not case['ortho_first']
+    ortho_now = p.force_orthotropic_laminate
+    with package(name):
+        K = dense(p.calc_k0(silent=True))
+    pd = pkg.make_pdef(new)
+    F = pkg.ref_F(new)
+    if ortho_now:
+        F = _apply_force_orthotropic(F)
+    Kref = rp.k0(pd, F)
+    pkg.compare_matrix(ctx, 'k0(after edit)', K, Kref, TOL, num=pd.num, bucket=name)
+
+
+@st.composite
+def _redefine_strategy(draw, tier='quick'):
+    case = draw(pkg.panel_case(mmax=4, sub_interval=False, max_plies=4))
+    case['uniform_form'] = False
+    case['ortho_first'] = draw(st.sampled_from([False, False, True]))
+    case['edit'] = {'what': draw(st.sampled_from(['offset', 'angle-in-place', 'thickness-in-place', 'ortho-toggle'])),
+                    'value': draw(st.one_of(gen.fl(-2., -0.2), gen.fl(0.2, 2.))), 'ply': draw(st.integers(0, 5))}
+    return case
+
+
 @st.composite
 def _strategy(draw, tier='quick'):
     mmax = 5 if tier == 'quick' else 8
@@ -158,6 +211,9 @@ SUBS = [
              '(m,n) x sub-interval/tiling x placement x pre-load; Panel.calc_k0 vs energy Hessian, every entry; '
              'non-trivial = coupled laminate (A16/B/D16 != 0) and (flags not all equal or sub-interval)',
         shards_quick=16),
+    Sub('redefine', _redefine_strategy, check_redefine, quick=128, thorough=2000,
+        rule='one Panel object reused: calc_k0, then the offset / a ply angle or thickness (edited in place in the list) / the '
+             'force_orthotropic_laminate switch is changed, calc_k0 again: equals the energy Hessian of the new definition', shards_quick=16),
     Sub('rigid_body', _rigid_strategy, check_k0, quick=48, thorough=600,
         rule='unrestrained flat panels, m,n>=4: rigid-body modes are null vectors of k0; non-trivial as above',
         shards_quick=8),
